@@ -112,3 +112,50 @@ func VH_C09_replication_reads() {
 	}
 	vReach("end")
 }
+
+//verif:check C09 stubs=env,valuefile,abslog,snapfs reach=deferred-pending,acked,deferred-compacted,end desc="deferred compaction (leader.removeLTE / replication.onLeaderUpdate / leader.checkLogCompact): after a snapshot whose compaction has to wait for replications, each replication picks up its new view (or not yet) through the real onLeaderUpdate and the leader processes the acknowledgements through the real checkReplUpdates: the log's first index moves past a position only after EVERY replication holds a view that starts at or after it (nobody is still reading what is unmapped), never beyond the snapshot, and once all have acknowledged the compaction does happen" bounds="n=2..3 nodes, log of 3 entries in 1..3 segments, symbolic match indexes and reachability, any subset of replications has picked up its notification"
+func VH_C09_deferred_compaction() {
+	n := 2 + vChoice(2)
+	r, l, a := vCompactLeader(n)
+	si := vU64("newSnap.index")
+	vAssume(si > r.snaps.index && si <= r.commitIndex && si > a.base)
+	si = a.base + uint64(vConcreteInt(int(si-a.base)))
+	st := vTermAt(a, a.base, si)
+	vPublishSnapshot(r, si, st, r.configs.Committed, 10)
+	r.snapTakenCh = make(chan snapTaken, 1)
+	r.onSnapshotTaken(snapTaken{req: takeSnapshot{task: newTask()}, meta: snapshotMeta{index: si, term: st, config: r.configs.Committed, size: 10}})
+	p1 := a.prev
+	pending := l.removeLTE > a.prev
+	if pending {
+		vReach("deferred-pending")
+	}
+	// each replication goroutine gets round to its leaderUpdateCh, or has not yet
+	all := true
+	for _, repl := range l.repls {
+		if len(repl.leaderUpdateCh) == 1 && vChoice(2) == 1 {
+			u := <-repl.leaderUpdateCh
+			repl.onLeaderUpdate(u, &appendReq{})
+			vReach("acked")
+		}
+		if len(repl.leaderUpdateCh) == 1 {
+			all = false
+		}
+	}
+	// the leader's loop receives the acknowledgements (checkReplUpdates drains whatever else is queued)
+	if len(l.replUpdateCh) > 0 {
+		l.checkReplUpdates(<-l.replUpdateCh)
+	}
+	vAssert(len(l.replUpdateCh) == 0, "updates-drained")
+	vAssert(a.prev >= p1 && a.prev <= r.snaps.index, "S2-deferred-compaction-bounded-by-snapshot")
+	if a.prev > p1 {
+		vReach("deferred-compacted")
+		for _, repl := range l.repls {
+			vAssert(repl.log != nil && repl.log.PrevIndex() >= a.prev, "S3-unmapped-only-after-every-replication-switched-views")
+		}
+	}
+	if pending && all {
+		vAssert(a.prev == l.removeLTE, "S3-deferred-compaction-completes-once-all-acknowledged")
+	}
+	vAssert(l.removeLTE >= a.prev, "S2-leader-removeLTE-at-or-above-first-index")
+	vReach("end")
+}
